@@ -261,7 +261,12 @@ func isFuncEntrypoint(node *ssa.Call, parent *ssa.Function, f func(config.CodeId
 	funcValue := node.Call.Value.Name()
 	calleePkg := FindSafeCalleePkg(node.Common())
 	if calleePkg.IsSome() {
-		return f(config.CodeIdentifier{Context: parent.String(), Package: calleePkg.Value(), Method: funcValue})
+		receiver := ""
+		if sig := node.Common().Signature(); sig != nil && sig.Recv() != nil {
+			receiver = ReceiverStr(sig.Recv().Type())
+		}
+		return f(config.CodeIdentifier{Context: parent.String(), Package: calleePkg.Value(), Method: funcValue,
+			Receiver: receiver, ValueMatch: node.String()})
 	}
 	return false
 }
